@@ -322,6 +322,20 @@ def run_instance(args):
                                          sym_detail=_jsonable(eval_under(cm, d)) if d is not None else None,
                                          inputs=inputs, choices=choices, labels=[x[0] for x in fl])
                         break
+                if not confirmed and hasattr(hmod, 'hint_inputs'):
+                    # the solver's witnesses sit on values (typically 0) where the real code happens to agree; the harness may name
+                    # awkward concrete values for the symbolic inputs.  Whatever the REAL code does on a concrete input that meets the
+                    # harness assumptions is behaviour of the code under test, so a failing hint is a replayed counterexample.
+                    for hint in hmod.hint_inputs(ctx, params):
+                        inputs = dict(tried[-1])
+                        inputs.update({k: v for k, v in hint.items() if k in ctx.vars})
+                        fl, obs, err = run_real(hmod, params, ms_real, inputs, choices)
+                        core.set_engine(E)
+                        if fl and err != 'assumption-violated':
+                            confirmed = dict(label=fl[0][0], detail=_jsonable(fl[0][1]), sym_label=l + ' (hint witness)', sym_detail=None,
+                                             inputs=inputs, choices=choices, labels=[x[0] for x in fl])
+                            res['hint_witnesses'] = res.get('hint_witnesses', 0) + 1
+                            break
                 if confirmed:
                     res['violations'].append(confirmed)
                 else:
